@@ -21,7 +21,7 @@ from ..sym import Explorer, N, is_const, show, walk
 from ..wrules import model, w2
 from .c06 import REF_READ, REF_WIDTH, arms_table
 
-ANCHOR_RE = [r"model_file_operations::.*::(read|write)_\w+$"]  # typed codecs are paired by computed name (read_X <-> write_X)
+ANCHOR_RE = [r"model_file_operations::.*::(read|write)_(byte_float4|byte_float42|tangent|half4|half2|byte4|single3|single4|unsigned_short4)$"]  # typed codecs are paired by computed name (read_X <-> write_X)
 TECHNIQUE = "static analysis: read/write symmetry of the binrw declarations; size-formula terms read off the MIR vs wire sizes; sibling agreement of the reader's and writer's (usage, type) switch nests; derives-from obligations on the writer's seeks"
 TRUSTED = ["pv/wire.py binrw model", "rustc nightly MIR", "encoder/decoder pairing table embedded in this rule"]
 
@@ -201,7 +201,7 @@ def run(ctx):
         ctx.ob("SEEK", "indices", len(idx) == 1 and "Mul" in idx[0].ops and (2 in idx[0].consts or any(c.endswith("size_of") for c in idx[0].calls)), f"writer index seek derives from {sorted(idx[0].names) if idx else None}", wbody.file, wbody.line)
 
     # ---- ENCODE: no float -> integer truncation in the attribute encoders (every such cast is preceded by round())
-    enc_bodies = [b_ for n_, b_ in prog.bodies.items() if n_.startswith("model_file_operations::") and b_.j["kind"] in ("Fn", "AssocFn")]
+    enc_bodies = [b_ for n_, b_ in prog.bodies.items() if n_.startswith("model_file_operations::") and b_.j["kind"] in ("Fn", "AssocFn", "Closure")]
     n_casts = 0
     for b_ in enc_bodies:
         eix = index_of(b_)
@@ -216,8 +216,26 @@ def run(ctx):
     for fn, (n_from, n_bits) in (("write_half4", (4, 4)), ("write_half2", (2, 2))):
         b_ = next((x for nme, x in prog.bodies.items() if nme.endswith("::" + fn) and "MDL" in nme), None)
         if b_:
+            b_ = prog.body(b_.name)  # helpers and nested fns inlined
             calls = [((t_.get("res") or (t_["f"].get("k") or {}).get("fn") or "")).split("::")[-1] for _bi, t_ in b_.calls()]
-            ctx.ob("ENCODE", f"{fn}|half", calls.count("from_f32") == n_from and calls.count("to_bits") == n_bits, f"{fn} encodes with {calls.count('from_f32')} x f16::from_f32 and {calls.count('to_bits')} x to_bits", b_.file, b_.line)
+            ok_h = calls.count("from_f32") == n_from and calls.count("to_bits") == n_bits
+            det_h = f"{calls.count('from_f32')} x f16::from_f32 and {calls.count('to_bits')} x to_bits"
+            if not ok_h and calls.count("from_f32") == 0:
+                # the per-component encoding may sit in a closure mapped over the fixed-size array: once, applied N times
+                import re as _re
+
+                for cb_ in prog.closures_of(b_.name):
+                    cc = [((t_.get("res") or (t_["f"].get("k") or {}).get("fn") or "")).split("::")[-1] for _bi, t_ in prog.body(cb_.name).calls()]
+                    if cc.count("from_f32") == 1 and cc.count("to_bits") == 1:
+                        for _bi, t_ in b_.calls():
+                            ga_ = " ".join((t_["f"].get("k") or {}).get("ga", []))
+                            cal = (t_.get("res") or (t_["f"].get("k") or {}).get("fn") or "")
+                            m_ = _re.search(r"\[f32; (\d+)\]", ga_)
+                            if cal.split("::")[-1] == "map" and cb_.name.split("::")[-1].strip("{}") in ga_.replace("closure@", "closure#") or (cal.split("::")[-1] == "map" and m_ and "closure" in ga_):
+                                if m_ and int(m_.group(1)) == n_from:
+                                    ok_h = True
+                                    det_h = f"f16::from_f32(..).to_bits() mapped over [f32; {m_.group(1)}]"
+            ctx.ob("ENCODE", f"{fn}|half", ok_h, f"{fn} encodes with {det_h}", b_.file, b_.line)
 
     # ---- EDIT: edit operations store what the caller supplied; header recomputation derives from the model's own fields
     def field_assigns(body_):
